@@ -67,6 +67,9 @@ func (m *Machine) invoke(th *Thread, fr *Frame, f FuncV, args []Value, dst ssa.V
 		return invDone
 	}
 	if f.builtin != nil {
+		if f.builtin.Name() == "close" && m.needYield(th, "close") {
+			return invYield
+		}
 		return finish(m.builtin(th, fr, f.builtin, args, dst))
 	}
 	if f.native != "" {
@@ -160,15 +163,41 @@ func (m *Machine) modelFor(name string) *ssa.Function {
 
 // needYield implements a scheduling point before a synchronisation operation.
 func (m *Machine) needYield(th *Thread, op string) bool {
-	if !m.multi || th.syncDepth > 0 {
+	if th.syncDepth > 0 {
+		return false
+	}
+	if !m.multi {
+		m.logSched(th, op)
 		return false
 	}
 	if th.granted {
 		th.granted = false
+		m.logSched(th, op)
 		return false
 	}
 	th.blockOn = op
 	return true
+}
+
+// logSched records the passage of a scheduling point (for native replay): thread (numbered in creation order among
+// goroutines started from instrumented code) and the site of the enclosing instrumented statement.
+func (m *Machine) logSched(th *Thread, op string) {
+	if th.retry {
+		th.retry = false
+		return
+	}
+	if th.nid < 0 || th.id < 0 {
+		return
+	}
+	pos := m.curPos
+	if m.deferPos.IsValid() {
+		pos = m.deferPos
+	}
+	site := m.L.Instr().schedSite(m.L.Fset, pos)
+	if site == "" {
+		return
+	}
+	m.schedLog = append(m.schedLog, SchedStep{Thread: th.nid, Site: site, Op: op})
 }
 
 // block parks the thread on something; the instruction will be re-executed when it is woken.
@@ -178,6 +207,7 @@ func (m *Machine) block(th *Thread, on string) {
 	}
 	th.blocked = true
 	th.blockOn = on
+	th.retry = true
 }
 
 func (m *Machine) wakeThread(t *Thread) {
